@@ -134,8 +134,10 @@ def _sh_sparse(tier):
     if tier == "quick":
         return product_pins(kind=[0], n=[3], k=[1], m=[2], starts=[1, 3], finals=[4, 6], perm=[0, 3],
                             unbounded=[False])
-    return product_pins(kind=[0], n=[3], k=[1, 2], m=[2, 3, 4], starts=[1, 3, 5], finals=[2, 4, 6],
-                        perm=[0, 3], unbounded=[False, True])
+    return product_pins(kind=[0], n=[3], k=[1], m=[2], starts=[1, 3, 5], finals=[2, 4, 6], perm=[0, 3],
+                        unbounded=[False, True]) + \
+        product_pins(kind=[0], n=[3], k=[1], m=[3], starts=[1], finals=[4, 6], perm=[0], unbounded=[False, True],
+                     t0=[0, 1, 2])
 
 
 FUNCS = ["EpsilonNFA.is_empty", "EpsilonNFA.is_deterministic", "NondeterministicFiniteAutomaton.is_deterministic",
@@ -153,6 +155,6 @@ CONDS = [
     Cond("C04", c04_sparse, _sh_sparse,
          {"quick": "eps-NFA 3 states over {a}, 2 edges, starts {0}/{0,1}, finals {2}/{1,2}, 2 label permutations "
                    "(visiting orders) x symbolic bound -1..3",
-          "thorough": "3 states, k<=2, 2-4 edges, 3 start masks x 3 final masks x 3 permutations, bounds and None"},
+          "thorough": "3 states over {a}: 2 edges x 3 start masks x 3 final masks x 2 permutations, 3 edges for start {0}, finals {2}/{1,2}; bounds -1..3 and None"},
          FUNCS, RULE),
 ]
